@@ -51,6 +51,7 @@ func propC14(c *Ctx) string {
 		}
 	}
 	c14AckCap(c, v, "C14")
+	c13ClosedWait(c, v, "C14")
 	c14CloseAll(c, v, "C14")
 	c12SetupState(c, v, "C14")
 	c12Once(c, v, "C14")
